@@ -13,6 +13,8 @@ def step (line : String) : String :=
   | "mparse" :: args => runMparse args
   | "eparse" :: args => runEparse args
   | "req" :: args => runReq args
+  | "dnf" :: args => runDnf args
+  | "show" :: args => runShow args
   | "expand" :: args => runExpand args
   | "urlhelpers" :: args => runUrlHelpers args
   | _ => "bad-op"
